@@ -172,8 +172,10 @@ var extFreshResults = []string{
 	"os.ReadFile", "io/ioutil.ReadFile", "io.ReadAll", "encoding/hex.DecodeString", "encoding/json.Marshal", "fmt.", "errors.",
 	"strconv.", "strings.", "(*bytes.Buffer).Bytes", "(*bytes.Buffer).Next", "(*encoding/csv.Reader).Read", "(*bufio.Scanner).Text",
 	"github.com/ethereum/go-ethereum/crypto.", "(github.com/ethereum/go-ethereum/common.Hash).Bytes", "math/big.", "crypto/rand.Int",
-	"net.", "os.", "bytes.New", "time.", "net/http.", "encoding/csv.NewReader", "bufio.NewScanner", "archive/zip.",
+	"net.", "os.", "bytes.New", "time.", "net/http.", "net/url.", "encoding/csv.NewReader", "bufio.NewScanner", "archive/zip.",
 }
+
+func probe0(name string) string { return strings.TrimLeft(name, "(*") }
 
 func externalSpec(name string) extSpec {
 	var s extSpec
@@ -200,7 +202,7 @@ func externalSpec(name string) extSpec {
 		}
 	}
 	for _, p := range extFreshResults {
-		if strings.HasPrefix(name, p) {
+		if strings.HasPrefix(name, p) || strings.HasPrefix(probe0(name), strings.TrimLeft(p, "(*")) {
 			s.fresh = true
 		}
 	}
@@ -571,7 +573,7 @@ func (p *Program) effectOf(fi *FuncInfo, e *Effect) {
 		e.Fresh = make([]bool, nres)
 	}
 	for i := 0; i < nres; i++ {
-		if !isRefType(fn.Signature.Results().At(i).Type()) {
+		if !typeHasRefs(fn.Signature.Results().At(i).Type(), 0) {
 			e.Fresh[i] = true
 			continue
 		}
@@ -586,11 +588,87 @@ func (p *Program) effectOf(fi *FuncInfo, e *Effect) {
 				continue
 			}
 			found = true
-			c := fi.ObjClass(ret.Results[i])
-			if !(c.IsLocal() || c.IsNil()) {
+			if !fi.valueFresh(ret.Results[i], 0) {
 				fresh = false
 			}
 		}
 		e.Fresh[i] = fresh && found
 	}
+}
+
+// valueFresh reports whether v references only storage allocated by this
+// function (deeply, for struct values assembled in a local).
+func (fi *FuncInfo) valueFresh(v ssa.Value, depth int) bool {
+	if depth > 4 {
+		return false
+	}
+	if !typeHasRefs(v.Type(), 0) {
+		return true
+	}
+	if isRefType(v.Type()) {
+		if types.IsInterface(v.Type()) {
+			if mi, ok := v.(*ssa.MakeInterface); ok {
+				return fi.valueFresh(mi.X, depth+1)
+			}
+			if c, ok := v.(*ssa.Const); ok && c.Value == nil {
+				return true
+			}
+			// error values and the like: treated as fresh (they are never
+			// written through)
+			return true
+		}
+		c := fi.ObjClass(v)
+		return c.IsLocal() || c.IsNil()
+	}
+	// struct or array value containing references
+	switch x := v.(type) {
+	case *ssa.Const:
+		return true
+	case *ssa.UnOp:
+		if x.Op.String() == "*" {
+			ac := fi.AddrClass(x.X)
+			if !ac.IsLocal() {
+				return false
+			}
+			if fi.freshVisiting == nil {
+				fi.freshVisiting = map[string]bool{}
+			}
+			if fi.freshVisiting[ac.Root] {
+				return true // copying a local onto itself
+			}
+			fi.freshVisiting[ac.Root] = true
+			defer delete(fi.freshVisiting, ac.Root)
+			// every store into that local must store fresh values
+			for _, b := range fi.Fn.Blocks {
+				for _, in := range b.Instrs {
+					st, ok := in.(*ssa.Store)
+					if !ok {
+						continue
+					}
+					sc := fi.AddrClass(st.Addr)
+					if sc.Root != ac.Root {
+						continue
+					}
+					if !fi.valueFresh(st.Val, depth+1) {
+						return false
+					}
+				}
+			}
+			return true
+		}
+	case *ssa.Call:
+		return fi.P.callResultFresh(&x.Call, 0)
+	case *ssa.Extract:
+		if call, ok := x.Tuple.(*ssa.Call); ok {
+			return fi.P.callResultFresh(&call.Call, x.Index)
+		}
+	case *ssa.Phi:
+		for _, e := range x.Edges {
+			if !fi.valueFresh(e, depth+1) {
+				return false
+			}
+		}
+		return true
+	}
+	return false
 }
